@@ -124,21 +124,26 @@ Theorem C01_order_refuted_args3 : forall o, nelua_run fe_w e_args3 st_w o <> lua
 Proof. exact order_refuted_args3. Qed.
 Print Assumptions C01_order_refuted_args3.
 
-Theorem C01_order_refuted_wrapper : exists o, nelua_run fe_w e_wrapper st_w o <> lua_run fe_w e_wrapper st_w.
-Proof. exact order_refuted_wrapper. Qed.
-Print Assumptions C01_order_refuted_wrapper.
+(* repaired in /repo 7b4cb3f: a call inherits the side effects of its arguments *)
+Theorem C01_order_wrapper_sequenced : forall o, nelua_run fe_w e_wrapper st_w o = lua_run fe_w e_wrapper st_w.
+Proof. exact order_wrapper_sequenced. Qed.
+Print Assumptions C01_order_wrapper_sequenced.
+
+Theorem C01_order_wrapped_args_sequenced : forall st o, nelua_run fe_ex e_wrapped_args st o = lua_run fe_ex e_wrapped_args st.
+Proof. exact wrapped_args_sequenced. Qed.
+Print Assumptions C01_order_wrapped_args_sequenced.
 
 (* repaired in /repo 9e49985: a callee that only stores through a field is marked, its calls are sequenced *)
 Theorem C01_order_indirect_store_sequenced : forall o, nelua_run fe_w e_unflagged st_w o = lua_run fe_w e_unflagged st_w.
 Proof. exact order_indirect_store_sequenced. Qed.
 Print Assumptions C01_order_indirect_store_sequenced.
 
-(* the strongest true restriction: when no function writes a variable (their effects are events and
-   values only) and every callee the analyzer leaves unmarked has unmarked arguments, the compiled
-   expression leaves the same store, trace and value as Lua for EVERY order of evaluation the C compiler
-   may choose - covering plain C operators/calls and both kinds of statement-expression temporaries *)
+(* the strongest true restriction: when no function writes a variable (their effects are events and values
+   only), the compiled expression leaves the same store, trace and value as Lua for EVERY expression and EVERY
+   order of evaluation the C compiler may choose - plain C operators/calls and both kinds of
+   statement-expression temporaries (the extra hypothesis on unmarked callees is gone since /repo 7b4cb3f) *)
 Theorem C01_order_preserved_partial : forall fe e st o,
-  no_writes fe -> se_closed fe e = true -> nelua_run fe e st o = lua_run fe e st.
+  no_writes fe -> nelua_run fe e st o = lua_run fe e st.
 Proof. exact order_preserved_partial. Qed.
 Print Assumptions C01_order_preserved_partial.
 
